@@ -108,6 +108,9 @@ type ExportVerdict struct {
 func RefExport(dut DUTCfg, pc PeerCfg, pfx Prefix, in CanonPath) ExportVerdict {
 	c := in
 	c.Hidden = 0
+	if pc.LocalAS != 0 {
+		dut.LocalAS = pc.LocalAS // the session's own local AS is what it prepends and what decides iBGP / eBGP
+	}
 	ibgpSession := pc.AS == dut.LocalAS
 	if in.Type == route.StaticPathType {
 		// redistribution of a static route into BGP: fresh BGP attributes, next hop of the static route
